@@ -48,6 +48,11 @@ def Outcome.ofExcept {α} : Except Err α → Outcome α
   | .ok a => .ok a
   | .error e => .error e
 
+def Outcome.map {α β} (f : α → β) : Outcome α → Outcome β
+  | .ok a => .ok (f a)
+  | .error e => .error e
+  | .panic k => .panic k
+
 /-- `Machine.Balances`: outer map (accounts), inner maps (assets; `keys` only enumerates them), the amounts -/
 structure Balances where
   accts : List Acct
@@ -559,6 +564,9 @@ structure Result where
   involved : List String
   sources : List String
   finalBal : List ((Acct × Asset) × Int)
+
+/-- what a caller observes of a successful run (the same record as `Num.Result.obs`) -/
+def Result.obs (r : Result) : Obs := ⟨r.postings, r.txMeta, r.acctMeta, r.prints.map (fun v => v.render.getD "")⟩
 
 /-- `GetTxMetaJSON`; `none` = panic -/
 def renderTxMeta : List (String × BVal) → Option (List (String × String))
